@@ -106,6 +106,11 @@ func runC01(c *Ctx) { runC01with(c, true) }
 func runC01with(c *Ctx, borrow bool) {
 	r := c.R
 	defer rulePeekLifetime(c, "R1.7", "C01: the frame read back must carry the id and payload that were written")
+	defer func() {
+		c.R.Rule("R1.10", "the bytes emitted are the frame given (= R8.1): frame.Writer.Write modifies or re-encodes a frame only when its message is not yet raw; a frame that already carries its encoded payload is marshalled as it is "+
+			"(no re-truncation, no checksum rewrite)", 1)
+		ruleRawPassthrough(c, "R1.10")
+	}()
 	if borrow {
 		defer borrowRules(c, "C05", runC05, map[string]string{"R5.2": "R1.8"}, "the frame read back equals the frame written only when header and payload are read whole however the transport segments them")
 		defer borrowRules(c, "C08", runC08, map[string]string{"R8.4": "R1.9"}, "the payload marshalled into a v1 / v2 frame must be the encoding of its message for that very version")
